@@ -5,6 +5,7 @@ import HexVerif.Lemmas.XcmpWitness
 import HexVerif.Lemmas.XcmpV1
 import HexVerif.Lemmas.XcmpV2
 import HexVerif.Lemmas.XcmpOnHexsim
+import HexVerif.Lemmas.XcmpPackString
 import HexVerif.Xcmp.Compile
 import HexVerif.X.Sem
 /-!
@@ -64,6 +65,8 @@ import HexVerif.X.Sem
     reflective check `v2Check` (per procedure: `PCtx.WFS` at the lowest stack pointer - lifted to
     every activation by `wfs_shift` -, code positions, frame accounting, symbol-table facts; and
     `imageWords <= spv - 64 * Smax`).
+  * `C01_string_packing`: the packing loop of `genString` = the packed value of the reference semantics, for every
+    byte string below 256 bytes (unconditional; the string-literal seeds C11e, C09g, C01h all hit this loop).
   * `C01_v3_on_hexsim`: the same for the class `v3Ok`, stated over the models of ALL THREE tools: compiler
     model's file -> model of hexsim's `load()` -> model of hexsim's `run()` (loader round trip + C02).
   * `C01_v3_partial`: the FULL statement, end to end, for the class `v3Ok P` (decidable): the class
@@ -390,6 +393,24 @@ theorem C01_v3_partial (P : X.Program) (inp : X.Input) (n : Nat) (β : X.Behavio
   intro hrun hcomp
   obtain ⟨m, code, j, s', io, h1, h2, h3, h4⟩ := C01s.v3_whole P inp n β img hr hcomp hrun
   exact ⟨m, code, j, s', io, h1, h2, h3, h4⟩
+
+/-- **`C01_string_packing`.**  Packed string literals, for EVERY byte string of fewer than 256 bytes
+    (bytes above 0x7f included): the packing loop of `genString` (running byte position, accumulator,
+    flush every fourth position and at the last character - `Xcmp.packString`) yields exactly the
+    words the reference semantics gives the literal (`X.packString`: length byte, then the characters,
+    four per word, little endian, zero filled); and those are the DATA words `genString` appends to
+    the pool behind the literal's label.  (The whole-program theorems compare the pool of each program
+    with `X.packString` reflectively, `strCheck`; this is the unconditional statement.) -/
+theorem C01_string_packing (bytes : List Byte) (h : bytes.length < 256) :
+    X.packString bytes = .ok (Xcmp.packString bytes) ∧
+    ∀ (reg : Xcmp.Reg) (gs : Xcmp.GS) (code : Xcmp.Code) (gs' : Xcmp.GS), Xcmp.genString reg bytes gs = .ok (code, gs') →
+      gs'.data = gs.data ++ (Asm.Dir.label .plain ("_string" ++ toString gs.stringCount) ::
+        (Xcmp.packString bytes).map fun (w : Word) => Asm.Dir.data w.toInt) := by
+  refine ⟨Xcmp.packString_eq bytes h, ?_⟩
+  intro reg gs code gs' hg
+  unfold Xcmp.genString at hg
+  cases reg <;> (simp only [bind, StateT.bind, get, getThe, MonadStateOf.get, StateT.get, set, StateT.set, pure, StateT.pure,
+    Except.bind, Except.pure] at hg; injection hg with hg; injection hg with _ hg; subst hg; rfl)
 
 /-- **`C01_v3_on_hexsim`.**  The C01 statement as the property words it - "running the binary that
     xcmp emits on the Hex simulator" - for the class `v3Ok`, over the MODELS of the three tools
